@@ -42,6 +42,7 @@ type Fixture struct {
 	BktB     string // owner bob, with a bucket policy, holds a canary object
 	BktV     string // owner alice, versioning enabled (only when the gateway has a versioning dir)
 	BktL     string // owner alice, object lock enabled
+	BktO     string // owner alice, ACLs enabled (object ownership BucketOwnerPreferred)
 	UploadID string // multipart upload in progress on BktA/mp1, one part uploaded
 	PartETag string
 	VerIDs   []string // versions of BktV/vobj, oldest first
@@ -70,7 +71,7 @@ func must(r *s3c.Resp, err error, what string) error {
 
 // Build creates the fixture through the API (root account) on a started gateway.
 func Build(sb *gw.Sandbox, t s3c.Transport, versioning bool) (*Fixture, error) {
-	fx := &Fixture{SB: sb, T: t, Root: s3c.NewClient(t, gw.DefaultRoot), BktA: "bkt-a", BktB: "bkt-b", BktV: "bkt-v", BktL: "bkt-l", HasVer: versioning}
+	fx := &Fixture{SB: sb, T: t, Root: s3c.NewClient(t, gw.DefaultRoot), BktA: "bkt-a", BktB: "bkt-b", BktV: "bkt-v", BktL: "bkt-l", BktO: "bkt-o", HasVer: versioning}
 	c := fx.Root
 	for name, cr := range Users {
 		r, err := c.CreateUser(name, cr.Secret, Roles[name], 0, 0)
@@ -95,6 +96,9 @@ func Build(sb *gw.Sandbox, t s3c.Transport, versioning bool) (*Fixture, error) {
 	if err := mk(fx.BktL, "alice", []s3c.KV{{K: "x-amz-bucket-object-lock-enabled", V: "true"}}); err != nil {
 		return nil, err
 	}
+	if err := mk(fx.BktO, "alice", []s3c.KV{{K: "x-amz-object-ownership", V: "BucketOwnerPreferred"}}); err != nil {
+		return nil, err
+	}
 	put := func(b, k string, hdr []s3c.KV, body string) error {
 		r, err := c.Call("PUT", "/"+b+"/"+k, nil, hdr, []byte(body))
 		return must(r, err, "put "+b+"/"+k)
@@ -109,6 +113,9 @@ func Build(sb *gw.Sandbox, t s3c.Transport, versioning bool) (*Fixture, error) {
 		return nil, err
 	}
 	if err := put(fx.BktB, KeySecret, nil, "bob's data "+CanaryBucketB); err != nil {
+		return nil, err
+	}
+	if err := put(fx.BktO, KeyObj, nil, "object in the bucket with ACLs"); err != nil {
 		return nil, err
 	}
 	if err := put(fx.BktL, KeyLocked, nil, "locked data"); err != nil {
